@@ -81,9 +81,18 @@ pub fn fatal_with_stats(v: &Violation, stats: &RunStats, harness_error: bool) ->
     let _ = std::fs::write(&path, j.pretty());
     if harness_error {
         eprintln!("HARNESS-ERROR {} : {}", v.signature(), v.msg);
-        std::process::exit(2);
+        hard_exit(2);
     }
-    std::process::exit(3);
+    hard_exit(3);
+}
+
+/// Leave the process without running thread-local destructors or atexit handlers: other tasks
+/// are parked inside library code and the scheduler lock may be held by the caller.
+pub fn hard_exit(code: i32) -> ! {
+    let _ = std::io::stdout().flush();
+    let _ = std::io::stderr().flush();
+    // SAFETY: plain _exit.
+    unsafe { libc::_exit(code) }
 }
 
 pub fn init_process() {
@@ -132,7 +141,7 @@ pub fn init_process() {
                         );
                         eprintln!("HARNESS-ERROR watchdog seed={} index={}", r.seed, r.index);
                     }
-                    std::process::exit(2);
+                    hard_exit(2);
                 }
             }
         })
@@ -340,7 +349,7 @@ pub fn worker_main(def: &PropDef, tier: Tier, base: u64, lo: u64, hi: u64, out: 
         .set("workloads", J::arr_u64(&wlv))
         .set("samples", J::arr_str(&samples));
     std::fs::write(out, j.to_string()).expect("write worker stats");
-    std::process::exit(0);
+    hard_exit(0);
 }
 
 // ------------------------------------------------------------------------------------------
@@ -898,7 +907,7 @@ pub fn trace_main(def: &PropDef, tier: Tier, base: u64, lo: u64, hi: u64, out: &
         s.push_str(&format!("{i} {:016x} {:016x} {}\n", r.stats.log_hash, r.stats.ilv_hash, r.stats.steps));
     }
     std::fs::write(out, s).expect("write trace");
-    std::process::exit(0);
+    hard_exit(0);
 }
 
 fn trace_batch(def: &PropDef, tier: Tier, base: u64, n: u64, jobs: u64, tag: &str) -> Result<BTreeMap<u64, String>, String> {
